@@ -38,6 +38,51 @@ pub struct Case {
     /// inside the type's own value notation the identifier is the named number, whatever a neighbour defines)
     #[serde(default)]
     pub capture: bool,
+    /// family "expansion across modules": `kind|lib-default|user-default|lib-name|source-order`; a notation defined by
+    /// expansion (COMPONENTS OF, selection type) applied to an imported type whose components carry tags without a
+    /// keyword.  The tags were written in the library module, so they follow *its* tagging default (X.680 31.2.7).
+    #[serde(default)]
+    pub xexpand: String,
+}
+
+fn xexpand_sources(spec: &str) -> (Vec<String>, Vec<String>) {
+    let f: Vec<&str> = spec.split('|').collect();
+    let (kind, dl, du, lib, order) = (f[0], f[1], f[2], f[3], f[4]);
+    let kw = if dl == "EXPLICIT" { "EXPLICIT" } else { "IMPLICIT" };
+    let libtext = format!("{lib} DEFINITIONS {dl} TAGS ::= BEGIN\nLib-Seq ::= SEQUENCE {{ a [0] INTEGER, b [1] BOOLEAN OPTIONAL }}\nLib-Cho ::= CHOICE {{ a [3] BOOLEAN, n [4] NULL }}\nEND\n");
+    let (sugar, expanded) = match kind {
+        "components-of" => ("Mid ::= SEQUENCE { own [7] NULL, COMPONENTS OF Lib-Seq }".to_string(), format!("Mid ::= SEQUENCE {{ own [7] NULL, a [0] {kw} INTEGER, b [1] {kw} BOOLEAN OPTIONAL }}")),
+        "components-of-set" => ("Mid ::= SET { own [7] NULL, COMPONENTS OF Lib-Seq }".to_string(), format!("Mid ::= SET {{ own [7] NULL, a [0] {kw} INTEGER, b [1] {kw} BOOLEAN OPTIONAL }}")),
+        "selection" => ("Mid ::= a < Lib-Cho".to_string(), format!("Mid ::= [3] {kw} BOOLEAN")),
+        _ => ("Mid ::= SEQUENCE { own [7] NULL, s a < Lib-Cho }".to_string(), format!("Mid ::= SEQUENCE {{ own [7] NULL, s [3] {kw} BOOLEAN }}")),
+    };
+    let user = |body: &str| format!("User DEFINITIONS {du} TAGS ::= BEGIN\nIMPORTS Lib-Seq, Lib-Cho FROM {lib};\n{body}\nEND\n");
+    let arrange = |u: String| if order == "lib-first" { vec![libtext.clone(), u] } else { vec![u, libtext.clone()] };
+    (arrange(user(&sugar)), arrange(user(&expanded)))
+}
+
+fn check_xexpand(spec: &str) -> CaseResult {
+    let (sug, exp) = xexpand_sources(spec);
+    let f: Vec<&str> = spec.split('|').collect();
+    let key = |k: &str| format!("module|expansion-across-modules|kind={}|lib={}|user={}|same-default={}|{k}", f[0], f[1], f[2], f[1] == f[2]);
+    let dump = format!("--- sugared ---\n{}\n--- expanded ---\n{}", sug.join("\n"), exp.join("\n"));
+    let (gs, ge) = match (compile_rasn(&sug, &Cfg::default()), compile_rasn(&exp, &Cfg::default())) {
+        (Outcome::Ok { generated: a, warnings: wa }, Outcome::Ok { generated: b, warnings: wb }) if wa.is_empty() && wb.is_empty() => (a, b),
+        (a, b) => return CaseResult { discs: vec![Disc::new(key(&format!("rejected:{}:{}", a.class(), b.class())), format!("{}\n{}\n{dump}", a.brief(), b.brief()))], nontrivial: false, outcome: "rejected".into(), skipped: None },
+    };
+    let mut discs = vec![];
+    match (project(&gs), project(&ge)) {
+        (Ok(ps), Ok(pe)) => {
+            let (ps, pe) = (ps.without_docs(), pe.without_docs());
+            let a = ps.module("user").and_then(|m| m.find("Mid").cloned());
+            let b = pe.module("user").and_then(|m| m.find("Mid").cloned());
+            if a.is_none() || a != b {
+                discs.push(Disc::new(key("differs"), format!("the type using the notation differs from its hand-expanded form\nsugared: {a:?}\nexpanded: {b:?}\n{dump}\n--- generated (sugared) ---\n{gs}")));
+            }
+        }
+        _ => discs.push(Disc::new(key("unparsable"), format!("{dump}\n{gs}"))),
+    }
+    CaseResult { discs, nontrivial: true, outcome: "xexpand".into(), skipped: None }
 }
 
 fn snake(name: &str) -> String {
@@ -230,7 +275,7 @@ impl Prop for C12 {
         "C12"
     }
     fn rule(&self) -> String {
-        "module sets of 2 modules (all 8×8 tagging×extensibility default assignments × all 4 import digraphs) and of 3 modules (pairwise-distinct defaults from a 4-palette × all 64 import digraphs, cyclic included; thorough also 4 modules on a ring/star/complete graph); every module has a tagged SEQUENCE, CHOICE, ENUMERATED, a type and a value, and uses each imported type as component type and each imported value as constraint endpoint (variants: all modules define the same names; an imported value whose type is not imported; every module constrains an INTEGER by its own named numbers while the last module defines values of exactly those names); for every set: every non-empty subset closed under `imports from`, in every order, handed to one Compiler as one literal per module (and once as a single concatenated literal), with and without default_wildcard_imports, plus one duplicated source. Oracle: differential — the `pub mod x` projection of X in the joint run equals that of X compiled with only its import closure; one `use super::<y>::{…}` per IMPORTS clause with exactly the mangled symbols in clause order (`*` iff wildcard); module-qualified references render as super::<y>::<T>, also when they close a type cycle across two modules and are boxed. Non-trivial: joint and stand-alone runs compiled cleanly and every module block was compared.".into()
+        "module sets of 2 modules (all 8×8 tagging×extensibility default assignments × all 4 import digraphs) and of 3 modules (pairwise-distinct defaults from a 4-palette × all 64 import digraphs, cyclic included; thorough also 4 modules on a ring/star/complete graph); every module has a tagged SEQUENCE, CHOICE, ENUMERATED, a type and a value, and uses each imported type as component type and each imported value as constraint endpoint (variants: all modules define the same names; an imported value whose type is not imported; every module constrains an INTEGER by its own named numbers while the last module defines values of exactly those names); for every set: every non-empty subset closed under `imports from`, in every order, handed to one Compiler as one literal per module (and once as a single concatenated literal), with and without default_wildcard_imports, plus one duplicated source. (family expansion across modules: COMPONENTS OF an imported SEQUENCE in a SEQUENCE / SET, a selection type of an imported CHOICE as assignment / component, the imported components carrying tags without keyword, library and user module under every pair of tagging defaults, both name orders, both source orders; the result equals the hand-expanded type whose tags carry the keyword of the *library's* default). Oracle: differential — the `pub mod x` projection of X in the joint run equals that of X compiled with only its import closure; one `use super::<y>::{…}` per IMPORTS clause with exactly the mangled symbols in clause order (`*` iff wildcard); module-qualified references render as super::<y>::<T>, also when they close a type cycle across two modules and are boxed. Non-trivial: joint and stand-alone runs compiled cleanly and every module block was compared.".into()
     }
     fn enumerate(&self, tier: Tier, _seed: u64) -> Vec<Case> {
         let tags = ["", "EXPLICIT", "IMPLICIT", "AUTOMATIC"];
@@ -240,16 +285,16 @@ impl Prop for C12 {
         let mut push_set = |mods: Vec<Mod>, out: &mut Vec<Case>, dups: bool| {
             let n = mods.len();
             for o in orders(n, &mods, dups) {
-                out.push(Case { mods: mods.clone(), order: o.clone(), single_source: false, wildcard: false, shared: false, assoc: false, capture: false });
+                out.push(Case { mods: mods.clone(), order: o.clone(), single_source: false, wildcard: false, shared: false, assoc: false, capture: false, xexpand: String::new() });
                 if o.len() == n && n == 2 {
-                    out.push(Case { mods: mods.clone(), order: o.clone(), single_source: false, wildcard: false, shared: true, assoc: false, capture: false });
-                    out.push(Case { mods: mods.clone(), order: o.clone(), single_source: false, wildcard: false, shared: false, assoc: true, capture: false });
-                    out.push(Case { mods: mods.clone(), order: o.clone(), single_source: false, wildcard: false, shared: false, assoc: false, capture: true });
+                    out.push(Case { mods: mods.clone(), order: o.clone(), single_source: false, wildcard: false, shared: true, assoc: false, capture: false, xexpand: String::new() });
+                    out.push(Case { mods: mods.clone(), order: o.clone(), single_source: false, wildcard: false, shared: false, assoc: true, capture: false, xexpand: String::new() });
+                    out.push(Case { mods: mods.clone(), order: o.clone(), single_source: false, wildcard: false, shared: false, assoc: false, capture: true, xexpand: String::new() });
                 }
                 if o.len() == n {
-                    out.push(Case { mods: mods.clone(), order: o.clone(), single_source: true, wildcard: false, shared: false, assoc: false, capture: false });
+                    out.push(Case { mods: mods.clone(), order: o.clone(), single_source: true, wildcard: false, shared: false, assoc: false, capture: false, xexpand: String::new() });
                     if o[0] == 0 {
-                        out.push(Case { mods: mods.clone(), order: o, single_source: false, wildcard: true, shared: false, assoc: false, capture: false });
+                        out.push(Case { mods: mods.clone(), order: o, single_source: false, wildcard: true, shared: false, assoc: false, capture: false, xexpand: String::new() });
                     }
                 }
             }
@@ -289,6 +334,23 @@ impl Prop for C12 {
                 }
             }
         }
+        // notations defined by expansion applied to imported types, library and user with every pair of tagging defaults
+        let stub = vec![Mod { name: names[0].into(), tagdef: String::new(), implied: false, imports: vec![], qualified: false }];
+        for kind in ["components-of", "components-of-set", "selection", "selection-component"] {
+            for dl in ["EXPLICIT", "IMPLICIT", "AUTOMATIC"] {
+                for du in ["EXPLICIT", "IMPLICIT", "AUTOMATIC"] {
+                    if du == "AUTOMATIC" && kind != "selection" {
+                        // (automatic tagging of a type with COMPONENTS OF is decided before and applied after the expansion: C03's subject)
+                        continue;
+                    }
+                    for lib in ["Aa-Lib", "Zz-Lib"] {
+                        for order in ["lib-first", "user-first"] {
+                            out.push(Case { mods: stub.clone(), order: vec![0], single_source: false, wildcard: false, shared: false, assoc: false, capture: false, xexpand: format!("{kind}|{dl}|{du}|{lib}|{order}") });
+                        }
+                    }
+                }
+            }
+        }
         if tier.thorough() {
             for (gname, g) in [("ring", vec![vec![1], vec![2], vec![3], vec![0]]), ("star", vec![vec![1, 2, 3], vec![], vec![], vec![]]), ("complete", vec![vec![1, 2, 3], vec![0, 2, 3], vec![0, 1, 3], vec![0, 1, 2]])] {
                 let _ = gname;
@@ -301,6 +363,9 @@ impl Prop for C12 {
         out
     }
     fn check(&self, c: &Case) -> CaseResult {
+        if !c.xexpand.is_empty() {
+            return check_xexpand(&c.xexpand);
+        }
         let cfg = Cfg { wildcard: c.wildcard, ..Default::default() };
         let texts: Vec<String> = (0..c.mods.len()).map(|i| module_text_variant(&c.mods, i, c.shared, c.assoc, c.capture)).collect();
         let sources: Vec<String> = if c.single_source { vec![c.order.iter().map(|i| texts[*i].clone()).collect::<Vec<_>>().join("\n")] } else { c.order.iter().map(|i| texts[*i].clone()).collect() };
